@@ -110,8 +110,17 @@ static void sink_faults(const hist_t* h, const uint8_t* good, size_t len, const 
 /* ---- (c) abort ---------------------------------------------------------------------------- */
 static void abort_points(const hist_t* h, const char* fdesc) {
     tbl_result r; mcf_sink_t s; FILE* f = mcf_sink_open(&s, -1, 0, 0, 0); tbl_exec(h, f, NULL, -1, &r); fclose(f); mcf_sink_free(&s); int nops = r.nops;
-    for (int k = 0; k <= nops - 1; k++) for (int target = 0; target < 2; target++) {
-        mc_desc("%s;abort-after=%d/%d;%s", fdesc, k, nops, target ? "path" : "stream");
+    /* path forms: absolute, and relative to the working directory ("name", "./name", "sub/name") after a chdir into the scratch directory */
+    static char dir[300], cwd0[300], reln[3][64], subd[32]; static const char* REL[4];
+    if (!dir[0]) { int pid = (int)getpid(); snprintf(subd, sizeof subd, "sub_c18_%d", pid); snprintf(reln[0], 64, "rel_c18_%d.parquet", pid); snprintf(reln[1], 64, "./rel_c18_%d.parquet", pid); snprintf(reln[2], 64, "%s/rel.parquet", subd); REL[1] = reln[0]; REL[2] = reln[1]; REL[3] = reln[2];      /* the shards share the scratch directory */
+         snprintf(dir, sizeof dir, "%s", g_path); char* sl = strrchr(dir, '/'); if (sl) *sl = 0; if (!getcwd(cwd0, sizeof cwd0)) cwd0[0] = 0; }
+    for (int k = 0; k <= nops - 1; k++) for (int target = 0; target < 5; target++) {
+        mc_desc("%s;abort-after=%d/%d;%s", fdesc, k, nops, target == 0 ? "stream" : target == 1 ? "path" : REL[target - 1]);
+        if (target >= 2) {      /* relative path forms */
+            if (chdir(dir)) mc_harness_error("chdir %s", dir); mkdir(subd, 0700); const char* rp = REL[target - 1]; unlink(rp);
+            mcf_on(); tbl_exec(h, NULL, rp, k, &r); mcf_off();
+            if (r.aborted && access(rp, F_OK) == 0) { mc_fail("abort.file-left-behind.relative-path", "%s: abort after %d of %d operations left %s (relative to %s) in place", fdesc, k, nops, rp, dir); unlink(rp); }
+            rmdir(subd); if (cwd0[0] && chdir(cwd0)) mc_harness_error("chdir back"); mc_count("abort.points", 1); continue; }
         /* steady state: run twice, the second run must not leave more blocks than the first */
         long live[2];
         for (int rep = 0; rep < 2; rep++) {
@@ -179,8 +188,9 @@ static void enumerate(void) {
         if (ref_pq_write(&RA, &rq, &inner, NULL, 0, NULL)) mc_harness_error("reference writer failed (empty file)");
         ref_file rf; if (ref_pq_read(&RA, inner.p, inner.n, &rf, 0)) mc_harness_error("reference reader rejects the empty file");
         uint32_t flen = (uint32_t)(inner.n - 8 - rf.footer_start); if (flen < 4 || inner.p[rf.footer_start + flen - 1] != 0x00) mc_harness_error("footer does not end with STOP");
-        for (uint32_t drop = 1; drop <= 3; drop++) {      /* the final STOP, and one / two more bytes, missing */
-            static uint8_t blob[600]; uint32_t bl = flen - drop; memcpy(blob, inner.p + rf.footer_start, bl); blob[bl] = (uint8_t)bl; blob[bl + 1] = (uint8_t)(bl >> 8); blob[bl + 2] = 0; blob[bl + 3] = 0; memcpy(blob + bl + 4, "PAR1", 4);
+        for (uint32_t drop = 1; drop <= 5; drop++) {      /* the final STOP, and one / two more bytes, missing; 4, 5: complete metadata whose schema has no leaf (an empty schema list; a root that announces a child and nothing else) */
+            static uint8_t blob[600]; uint32_t bl = flen - drop; memcpy(blob, inner.p + rf.footer_start, bl);
+            if (drop >= 4) { static const uint8_t NOLEAF[2][24] = { { 0x15, 0x02, 0x19, 0x0c, 0x16, 0x00, 0x19, 0x0c, 0x00 }, { 0x15, 0x02, 0x19, 0x1c, 0x48, 0x01, 0x72, 0x15, 0x02, 0x00, 0x16, 0x00, 0x19, 0x0c, 0x00 } }; static const uint32_t NL[2] = { 9, 15 }; bl = NL[drop - 4]; memcpy(blob, NOLEAF[drop - 4], bl); } blob[bl] = (uint8_t)bl; blob[bl + 1] = (uint8_t)(bl >> 8); blob[bl + 2] = 0; blob[bl + 3] = 0; memcpy(blob + bl + 4, "PAR1", 4);
             carquet_error_t err = CARQUET_ERROR_INIT; carquet_schema_t* sch = carquet_schema_create(&err); (void)carquet_schema_add_column(sch, "blob", CARQUET_PHYSICAL_BYTE_ARRAY, NULL, CARQUET_REPETITION_REQUIRED, 0);
             carquet_writer_options_t wo; carquet_writer_options_init(&wo); wo.compression = CARQUET_COMPRESSION_UNCOMPRESSED; char* mem = NULL; size_t mlen = 0; FILE* mf = open_memstream(&mem, &mlen); carquet_writer_t* w = carquet_writer_create_file(mf, sch, &wo, &err); carquet_byte_array_t v = { blob, (int32_t)(bl + 8) };
             if (!w || carquet_writer_write_batch(w, 0, &v, 1, NULL, NULL) != CARQUET_OK || carquet_writer_close(w) != CARQUET_OK) mc_harness_error("cannot write the metadata-without-stop seed");
